@@ -105,8 +105,11 @@ var nativeIntrinsics = map[string]intrinsic{
 	"unicode.SimpleFold":  unicodeMap("SimpleFold", unicode.SimpleFold),
 }
 
-// unicodePred: exact for concrete runes; for a symbolic rune the result is
-// exact on ASCII and an uninterpreted function above it.
+// Unicode classification of a symbolic rune: exact below unicodeExact and for
+// U+FFFD (what the UTF-8 decoder yields for invalid input), an uninterpreted
+// function of the rune elsewhere (any classification: an over-approximation).
+const unicodeExact = 0x100
+
 func unicodePred(name string, f func(rune) bool) intrinsic {
 	return func(it *Interp, fn *ssa.Function, args []Value) Value {
 		r := args[0]
@@ -115,14 +118,12 @@ func unicodePred(name string, f func(rune) bool) intrinsic {
 		}
 		t := r.Ref.(*Term)
 		tt := it.tt
-		// ASCII part as an ite chain over runs
-		isASCII := tt.Cmp(OUlt, t, tt.Const(32, 0x80))
-		ascii := tt.False
-		for c := 0; c < 0x80; c++ {
+		isLow := tt.Cmp(OUlt, t, tt.Const(32, unicodeExact))
+		low := tt.False
+		for c := 0; c < unicodeExact; c++ {
 			if f(rune(c)) {
-				// extend a run
 				d := c
-				for d+1 < 0x80 && f(rune(d+1)) {
+				for d+1 < unicodeExact && f(rune(d+1)) {
 					d++
 				}
 				var in *Term
@@ -131,12 +132,13 @@ func unicodePred(name string, f func(rune) bool) intrinsic {
 				} else {
 					in = tt.And(tt.Cmp(OUle, tt.Const(32, uint64(c)), t), tt.Cmp(OUle, t, tt.Const(32, uint64(d))))
 				}
-				ascii = tt.Or(ascii, in)
+				low = tt.Or(low, in)
 				c = d
 			}
 		}
 		uf := tt.UF("uf_"+name, SBool, t)
-		return fromTerm(tt.Ite(isASCII, ascii, uf))
+		hi := tt.Ite(tt.Eq(t, tt.Const(32, 0xFFFD)), tt.Bool(f(0xFFFD)), uf)
+		return fromTerm(tt.Ite(isLow, low, hi))
 	}
 }
 
@@ -148,15 +150,16 @@ func unicodeMap(name string, f func(rune) rune) intrinsic {
 		}
 		t := r.Ref.(*Term)
 		tt := it.tt
-		isASCII := tt.Cmp(OUlt, t, tt.Const(32, 0x80))
+		isLow := tt.Cmp(OUlt, t, tt.Const(32, unicodeExact))
 		res := t
-		for c := 0x7f; c >= 0; c-- {
+		for c := unicodeExact - 1; c >= 0; c-- {
 			if m := f(rune(c)); m != rune(c) {
 				res = tt.Ite(tt.Eq(t, tt.Const(32, uint64(c))), tt.Const(32, uint64(uint32(m))), res)
 			}
 		}
 		uf := tt.UF("uf_"+name, 32, t)
-		return fromTerm(tt.Ite(isASCII, res, uf))
+		hi := tt.Ite(tt.Eq(t, tt.Const(32, 0xFFFD)), tt.Const(32, uint64(uint32(f(0xFFFD)))), uf)
+		return fromTerm(tt.Ite(isLow, res, hi))
 	}
 }
 
